@@ -118,7 +118,7 @@ def run_one(it):
                             pos = sent_count["S"]
                             sent_count["S"] += 1
                             if it["corrupt"] and pos == it.get("_corrupt_abs", -1):
-                                chunk[j] = (chunk[j] + it["delta"]) % 256
+                                chunk[j] = (chunk[j] ^ it["delta"]) if it.get("op") == "xor" else (chunk[j] + it["delta"]) % 256
                     dst.feed(bytes(chunk))
                     moved = True
                 idle = 0 if moved else idle + 1
@@ -219,6 +219,14 @@ def run(ctx: Ctx):
                     items.append({"id": tid, "dir": d, "n": n, "h": dict(hs[0], r=(d == "e2h")), "chunk": rng.choice(["whole", "byte", "rand"]),
                                   "corrupt": blkno, "pos": pos, "delta": delta, "seed": rng.randrange(1 << 30),
                                   "policy": rng.choice(["fifo", "random"])})
+    # every single-bit flip of every header byte (R-bit / device id, W-bit / stream, function, E-bit / block number, system bytes)
+    for d in ("h2e", "e2h"):
+        for n, blkno in ((1, 1), (600, 2)):
+            for pos in range(1, 11):
+                for bit in range(8):
+                    tid += 1
+                    items.append({"id": tid, "dir": d, "n": n, "h": dict(hs[0], r=(d == "e2h")), "chunk": rng.choice(["whole", "rand"]),
+                                  "corrupt": blkno, "pos": pos, "delta": 1 << bit, "op": "xor", "seed": rng.randrange(1 << 30), "policy": "fifo"})
     recs = [r_ for batch in pmap(run_batch, chunks(items, 28)) for r_ in batch]
     bad = [r_ for r_ in recs if r_.get("errors")]
     for r_ in bad[:2]:
@@ -254,7 +262,7 @@ def run(ctx: Ctx):
                                    f"(+{r_['delta']}): {v['clause']}"})
     ctx.rule = ("transfers = 2 directions x body sizes {0,1,244,245,600} x chunking {whole blocks, single bytes, random} x 2 headers "
                 "without fault + sequences of 3-4 messages on one long-lived line with reused system bytes + one-byte corruptions (every position of short blocks, boundary + sampled positions of long ones, two "
-                "deltas) under fifo/random/PCT schedules; judged against reference blocks computed by TLC")
+                "deltas, every single-bit flip of every header byte) under fifo/random/PCT schedules; judged against reference blocks computed by TLC")
     ctx.assumptions += ["only one side transmits at a time (premise of the property); no contention scenarios",
                         "FakeConnection stands for the serial connection (bytes in, bytes out)"]
     return ctx.finish()
